@@ -13,6 +13,7 @@ def main():
     ap.add_argument("prop")
     ap.add_argument("--tier", default=os.environ.get("VERIF_TIER") or "quick")
     ap.add_argument("--replay")
+    ap.add_argument("--replay-inner", dest="replay_inner")
     ap.add_argument("--part")
     a = ap.parse_args()
     os.environ.setdefault("PYTHONHASHSEED", "0")
@@ -29,7 +30,7 @@ def main():
         from . import harness
 
         mod = importlib.import_module(f"vlib.checks.{a.prop.lower()}")
-        rc = harness.run_check(mod, tier=tier, seed=seed, replay=a.replay, only_part=a.part)
+        rc = harness.run_check(mod, tier=tier, seed=seed, replay=a.replay, only_part=a.part, replay_inner=a.replay_inner)
     except SystemExit:
         raise
     except BaseException:
